@@ -29,7 +29,29 @@ def spell(rng, name, mode):
     return bytes((ch ^ 0x20) if (65 <= ch <= 90 or 97 <= ch <= 122) and rng.random() < 0.5 else ch for ch in name)
 
 
+USPACE = [b"\xc2\x85", b"\xc2\xa0", b"\xe1\x9a\x80", b"\xe2\x80\xa8", b"\xe2\x80\xa9", b"\xe2\x80\xaf", b"\xe2\x81\x9f", b"\xe3\x80\x80"] + \
+         [b"\xe2\x80" + bytes([0x80 + i]) for i in range(11)]
+
+
+def go_trim(v):
+    """strings.TrimSpace: ASCII white space and the UTF-8 encodings of the Unicode White_Space runes"""
+    while True:
+        w = v.strip(b" \t\r\n\x0b\x0c")
+        for u in USPACE:
+            if w.startswith(u):
+                w = w[len(u):]
+            if w.endswith(u):
+                w = w[:-len(u)]
+        if w == v:
+            return v
+        v = w
+
+
 def ext_value(rng, big=False):
+    return go_trim(ext_value_raw(rng, big))
+
+
+def ext_value_raw(rng, big=False):
     k = rng.randrange(10)
     if k == 0:
         return b""
@@ -168,7 +190,7 @@ class Flows:
         for _ in range(n):
             name = r.choice([b"X-" + tok(r, 1, 6), b"Subject", b"s", b"Contact", b"m", b"User-Agent", b"x-FOO", b"P-Asserted-Identity",
                              b"Supported", b"k", b"Accept", b"Max-Forwards", b"Expires", b"Content-Type", b"c"])
-            v = ext_value(r, o.get("big", False))
+            v = ext_value(r, o.get("big", False) and sum(len(x[1]) for x in hs) < 30000)
             if name == b"Expires":
                 v = r.choice([b"3600", b"60", b"abc", b"0"])
             if name == b"Max-Forwards":
@@ -213,7 +235,11 @@ class Flows:
         # a Max-Forwards before From sometimes (Record-Route insertion position)
         hs += core
         b = body if body is not None else body_bytes(r, self.o.get("big", False))
-        return msg(method + b" " + ruri + b" SIP/2.0", hs, b, cl_name=spell(r, b"Content-Length", mode)), hs
+        data = msg(method + b" " + ruri + b" SIP/2.0", hs, b, cl_name=spell(r, b"Content-Length", mode))
+        if len(data) > 60000:          # must fit a UDP datagram, also after the proxy has added its Via / Record-Route
+            b = b[:max(0, len(b) - (len(data) - 60000))]
+            data = msg(method + b" " + ruri + b" SIP/2.0", hs, b, cl_name=spell(r, b"Content-Length", mode))
+        return data, hs
 
     # ---- flows
     def uri_pair(self):
